@@ -186,6 +186,7 @@ func (c *ConstantStruct) Link(scope Scope, t TypeSpec) (ConstantValue, error) {
 
 	for _, field := range s.Fields {
 		f, ok := c.Fields[field.Name]
+		fromDefault := false
 		if !ok {
 			if field.Default == nil {
 				if field.Required {
@@ -197,11 +198,31 @@ func (c *ConstantStruct) Link(scope Scope, t TypeSpec) (ConstantValue, error) {
 				}
 				continue
 			}
+			if s.expandingDefault {
+				// We are already inside the default value of one of this
+				// struct's fields: the default (transitively) contains a
+				// value of the same struct whose fields again have to be
+				// defaulted. Such a default has no finite value; without
+				// this check linking recursed until the stack overflowed.
+				return nil, constantValueCastError{
+					Value: c,
+					Type:  t,
+					Reason: fmt.Errorf(
+						"the default value of field %q contains itself", field.Name),
+				}
+			}
 			f = field.Default
 			c.Fields[field.Name] = f
+			fromDefault = true
 		}
 
+		if fromDefault {
+			s.expandingDefault = true
+		}
 		f, err := f.Link(scope, field.Type)
+		if fromDefault {
+			s.expandingDefault = false
+		}
 		if err != nil {
 			return nil, constantValueCastError{
 				Value: c,
